@@ -15,7 +15,7 @@
    These hypotheses are NOT proved of numpy's RandomState, emcee or the Hankel transform: the statistical probes of
    harness/c01.py are their only coverage.  [C01_*_hypotheses_satisfiable] shows they are jointly satisfiable. *)
 From Coq Require Import Reals List ZArith Bool.
-From GS Require Import Num Loops RInst C01_Model C01_Prob C01_Inst C01_Sampling.
+From GS Require Import Num Loops RInst C12_Model C01_Model C01_Prob C01_Inst C01_Sampling C01_Sphere C01_Srf.
 Import ListNotations.
 Open Scope R_scope.
 
@@ -57,6 +57,37 @@ Theorem C01_pointwise_variance :
       = var + nugget.
 Proof. exact randmeth_pointwise_variance. Qed.
 Print Assumptions C01_pointwise_variance.
+
+(* the SRF pipeline (SRF.__call__: generator at model.isometrize(pos), + mean): anisotropy and rotation.
+   [srf_field] = entry i of [srf_randmeth];  M = matrix_isometrize dim angles anis (C12: diag(1, 1/anis) * R^T);
+   [matvec M h] = M h.  The covariance between two locations is var * rho(M (x_i - x_i')) *)
+Theorem C01_srf_mean :
+  forall (ora : nat -> list R -> R) (Om : Type) (E : (Om -> R) -> R) (N P : nat)
+         (KS : Om -> list (list R)) (Z1 Z2 W : Om -> list R),
+    H0_normalised E -> H1_linear E -> H2_amplitudes E N KS Z1 Z2 -> H4_nugget E N P KS Z1 Z2 W ->
+    modes_shape N KS ->
+    forall (dim : nat) (angles anis : list R) (mean var nugget : R) (pos : list (list R)) (i : nat),
+      shape1 pos = P -> (i < P)%nat ->
+      E (srf_field ora Om N KS Z1 Z2 W dim angles anis mean var nugget pos i) = mean.
+Proof. exact srf_randmeth_mean. Qed.
+Print Assumptions C01_srf_mean.
+
+Theorem C01_srf_covariance_anisotropic :
+  forall (ora : nat -> list R -> R) (Om : Type) (E : (Om -> R) -> R) (N P : nat)
+         (KS : Om -> list (list R)) (Z1 Z2 W : Om -> list R),
+    H0_normalised E -> H1_linear E -> H2_amplitudes E N KS Z1 Z2 -> H4_nugget E N P KS Z1 Z2 W ->
+    modes_shape N KS ->
+    forall (dim : nat) (angles anis : list R) (mean var nugget : R) (pos : list (list R)) (rho : list R -> R),
+      shape1 pos = P ->
+      H3_spectral E N (shape0 (matrix_isometrize (Rops ora) dim angles anis)) KS rho ->
+      0 <= var -> 0 <= nugget -> (1 <= N)%nat ->
+      forall i i' : nat, (i < P)%nat -> (i' < P)%nat ->
+        E (fun w => (srf_field ora Om N KS Z1 Z2 W dim angles anis mean var nugget pos i w - mean)
+                  * (srf_field ora Om N KS Z1 Z2 W dim angles anis mean var nugget pos i' w - mean))
+        = var * rho (matvec (matrix_isometrize (Rops ora) dim angles anis) (lag pos i i'))
+          + (if Nat.eqb i i' then nugget else 0).
+Proof. exact srf_randmeth_covariance. Qed.
+Print Assumptions C01_srf_covariance_anisotropic.
 
 Theorem C01_fourier_mean_zero :
   forall (Om : Type) (E : (Om -> R) -> R) (ora : nat -> list R -> R) (N P : nat)
@@ -155,3 +186,24 @@ Theorem C01_sphere3_unit :
     let '(x, y, z) := sphere3_point (Rops ora) a1 a2 in x * x + y * y + z * z = 1.
 Proof. exact sphere3_unit. Qed.
 Print Assumptions C01_sphere3_unit.
+
+(* ... and their first and second moments under the uniform draws sample_sphere uses are those of the uniform
+   distribution on the sphere: E[s_a] = 0, E[s_a s_b] = delta_ab / d.   mean2 f = (1 / 2 pi) int_0^{2 pi} f(a) da;
+   mean3 f = (1 / 4 pi) int_{-1}^{1} int_0^{2 pi} f(a, z) da dz   (Coquelicot Riemann integrals);
+   sx, sy, sz are the three components of [sphere3_point a z] *)
+Theorem C01_sphere_sampling_2d :
+  mean2 cos = 0 /\ mean2 sin = 0
+  /\ mean2 (fun a => cos a * cos a) = 1 / 2 /\ mean2 (fun a => sin a * sin a) = 1 / 2
+  /\ mean2 (fun a => cos a * sin a) = 0.
+Proof. exact sphere2_moments. Qed.
+Print Assumptions C01_sphere_sampling_2d.
+
+Theorem C01_sphere_sampling_3d :
+  forall ora : nat -> list R -> R,
+    (mean3 (sx ora) = 0 /\ mean3 (sy ora) = 0 /\ mean3 (sz ora) = 0)
+    /\ (mean3 (fun a z => sx ora a z * sx ora a z) = 1 / 3 /\ mean3 (fun a z => sy ora a z * sy ora a z) = 1 / 3
+        /\ mean3 (fun a z => sz ora a z * sz ora a z) = 1 / 3
+        /\ mean3 (fun a z => sx ora a z * sy ora a z) = 0 /\ mean3 (fun a z => sx ora a z * sz ora a z) = 0
+        /\ mean3 (fun a z => sy ora a z * sz ora a z) = 0).
+Proof. intros ora. exact (conj (sphere3_first_moments ora) (sphere3_second_moments ora)). Qed.
+Print Assumptions C01_sphere_sampling_3d.
